@@ -398,7 +398,7 @@ def cmp_elapsed(F, body):
         back = fl.backward({p["l"]})
         for _bi, _si, st in body.stmts():
             if st["k"] == "assign" and st["p"]["l"] in back:
-                pl = st["rv"].get("p") or op_place(st["rv"].get("op") or {})
+                pl = st["rv"].get("p") or (op_place(st["rv"].get("op") or {}) if st["rv"]["k"] in ("use", "cast") else None)
                 if pl and pl["l"] == 1:
                     fs = [e for e in pl["pr"] if e[0] == "f"]
                     if fs and fs[0][4] in up_elapsed:
@@ -421,30 +421,29 @@ def r6_timeouts(ctx):
                 "check_expired_timeouts and next_timeout_ms (a parked process is woken exactly when its select would complete); "
                 "the select's start_time is written only while it is None")
     F = ctx.facts
+    # the expiry tests are found by what they compare (the elapsed time of a select: a saturating_sub result, possibly captured by a closure), wherever
+    # they live in the executor — the select's own test may sit in its own function or in the source walk, the re-queue scan in a loop or a closure
     sib = {}
-    for key in (EXEC + "::handle_select_timeout", EXEC + "::check_expired_timeouts", EXEC + "::next_timeout_ms"):
-        found = []
-        for k in F.with_closures(key):
-            found += cmp_elapsed(F, F.body(k))
-        sib[key] = found
+    for k, f in sorted(F.fns.items()):
+        if f["crate"] != "quiver_core" or not f.get("mir") or k in F.absorbed or "::executor::" not in k:
+            continue
+        found = cmp_elapsed(F, F.body(k))
+        if found:
+            sib.setdefault(k.split("::{closure")[0], []).extend(found)
+    ctx.floor(R, "functions testing a select's elapsed time against its timeout", len(sib), 2)
     norm = {}
     for key, found in sib.items():
         short = key.split("::")[-1]
-        if key.endswith("next_timeout_ms") and not found:
-            continue
-        if not found:
-            ctx.violated(R, key + "|expiry-test", "no comparison of the elapsed time found in %s" % short)
-            continue
-        op, left = found[0]
-        # normalise to elapsed OP timeout
-        if not left:
-            op = {"Ge": "Le", "Gt": "Lt", "Le": "Ge", "Lt": "Gt"}[op]
-        norm[key] = op
-        ctx.check(op in ("Ge", "Gt"), R, key + "|direction", "%s: expires when elapsed %s timeout" % (short, ">=" if op == "Ge" else ">"),
-                  "%s: the expiry comparison is reversed (elapsed %s timeout): a timeout could fire early" % (short, op))
+        for n_, (op, left) in enumerate(found):
+            # normalise to elapsed OP timeout
+            if not left:
+                op = {"Ge": "Le", "Gt": "Lt", "Le": "Ge", "Lt": "Gt"}[op]
+            norm[(key, n_)] = op
+            ctx.check(op in ("Ge", "Gt"), R, key + "|direction" + ("#%d" % n_ if n_ else ""), "%s: expires when elapsed %s timeout" % (short, ">=" if op == "Ge" else ">"),
+                      "%s: the expiry comparison is reversed (elapsed %s timeout): a timeout could fire early" % (short, op))
     ops = set(norm.values())
     ctx.check(len(ops) == 1, R, "expiry-siblings", "the sibling expiry tests agree (%s)" % sorted(ops),
-              "the expiry tests disagree in strictness %s: a parked select can miss its wake-up or spin" % {k.split("::")[-1]: v for k, v in norm.items()})
+              "the expiry tests disagree in strictness %s: a parked select can miss its wake-up or spin" % {k[0].split("::")[-1]: v for k, v in norm.items()})
     e = F.body(EXEC + "::ensure_select_start_time")
     fl = Flow(e, through_named=True)
     writes = [(bi, si, s) for bi, si, s in e.stmts() if s["k"] == "assign" and [x for x in s["p"]["pr"] if x[0] == "f"] and [x for x in s["p"]["pr"] if x[0] == "f"][-1][1] == "start_time"]
